@@ -12,7 +12,8 @@ def check(ctx):
         "reach the span queue and the caller's closure only across is_sampled == true; R5 is_sampled/trace_id are copied "
         "(never recomputed) into every derived CollectTokenItem and into the SpanContext built by from_span / "
         "current_local_parent; R6 set_local_parent on a recording span always opens a scope of its own (an unsampled span's "
-        "scope shields the enclosing one).")
+        "scope shields the enclosing one); R7 enter_with_parents returns a no-op span only for an empty token (not for an unsampled one); R8 the "
+        "scope stack is only looked at from its top (contexts come from the innermost scope).")
     ctx.not_decided = "absence of output for all programs (every path to the queue passes the filter; programs are not enumerated)."
     facts = ctx.facts("E")
     provrules.rule_root_sampling(ctx, facts, "R1")
@@ -24,3 +25,8 @@ def check(ctx):
     scopes.rule_scope_always_opened(ctx, facts, "R6")
     provrules.rule_token_items(ctx, facts, "R5", fields=("trace_id", "is_sampled"))
     provrules.rule_context_copies(ctx, facts, "R5", fields=("trace_id", "sampled"))
+    # the decision propagates: a child of an unsampled span is still a span of that trace (context, scope), never a no-op; and the
+    # context of "the local parent" is the innermost scope's, whose decision may differ from an enclosing scope's
+    from .. import spanrules
+    spanrules.rule_noop_only_without_parent(ctx, facts, "R7")
+    scopes.rule_span_lines_innermost_only(ctx, facts, "R8")
